@@ -1193,6 +1193,25 @@ def _put_one_AnnAssign_target(
     return ret
 
 
+def _put_one_Name_no_pars(
+    self: fst.FST,
+    code: _PutOneCode,
+    idx: int | None,
+    field: str,
+    child: _Child,
+    static: onestatic,
+    options: Mapping[str, Any],
+) -> fst.FST:
+    """`NamedExpr.target` and `TypeAlias.name` must be a bare `Name`, parentheses are a syntax error here so they are
+    removed regardless of the `pars` option."""
+
+    ret = _put_one_exprlike_required(self, code, idx, field, child, static, options)
+
+    ret._unparenthesize_grouping(False)
+
+    return ret
+
+
 def _put_one_Raise_exc(
     self: fst.FST,
     code: _PutOneCode,
@@ -2859,7 +2878,7 @@ _PUT_ONE_HANDLERS = {
     (Delete, 'targets'):                  (True,  _put_one_exprlike_required, onestatic(_one_info_exprlike_required, is_valid_del_target, ctx_cls=Del)),  # expr*
     (Assign, 'targets'):                  (True,  _put_one_exprlike_required, _onestatic_target),  # expr*
     (Assign, 'value'):                    (False, _put_one_exprlike_required, _onestatic_expr_required),  # expr  - python technically allows Starred for parse but is not compilable, should we allow it as well for consistency?
-    (TypeAlias, 'name'):                  (False, _put_one_exprlike_required, _onestatic_target_Name),  # expr
+    (TypeAlias, 'name'):                  (False, _put_one_Name_no_pars, _onestatic_target_Name),  # expr
     (TypeAlias, 'type_params'):           (True,  _put_one_exprlike_required, _onestatic_type_param_required),  # type_param*
     (TypeAlias, 'value'):                 (False, _put_one_exprlike_required, _onestatic_expr_required),  # expr
     (AugAssign, 'target'):                (False, _put_one_exprlike_required, _onestatic_target_single),  # expr
@@ -2912,7 +2931,7 @@ _PUT_ONE_HANDLERS = {
     (Expr, 'value'):                      (False, _put_one_exprlike_required, _onestatic_expr_required_w_starred),  # expr
     (BoolOp, 'op'):                       (False, _put_one_BoolOp_op, onestatic(None)),  # boolop  - very special case gets handled entirely in _put_one_BoolOp_op
     (BoolOp, 'values'):                   (True,  _put_one_exprlike_required, _onestatic_expr_required),  # expr*
-    (NamedExpr, 'target'):                (False, _put_one_exprlike_required, _onestatic_target_Name),  # expr
+    (NamedExpr, 'target'):                (False, _put_one_Name_no_pars, _onestatic_target_Name),  # expr
     (NamedExpr, 'value'):                 (False, _put_one_exprlike_required, _onestatic_expr_required),  # expr
     (BinOp, 'left'):                      (False, _put_one_BinOp_left_right, _onestatic_expr_required),  # expr
     (BinOp, 'op'):                        (False, _put_one_op, onestatic(None, code_as=code_as_operator)),  # operator
